@@ -10,6 +10,7 @@ import (
 	"testing"
 
 	"github.com/google/go-tdx-guest/abi"
+	ccpb "github.com/google/go-tdx-guest/proto/checkconfig"
 	pb "github.com/google/go-tdx-guest/proto/tdx"
 	"github.com/google/go-tdx-guest/validate"
 	"pgregory.net/rapid"
@@ -417,6 +418,66 @@ func TestC08(t *testing.T) {
 		}
 	})
 
+	// Options that START as the conversion of a policy without expectations (nil, empty, one empty sub-policy) and are
+	// then filled in by the caller - the per-request nonce, a minimum, a measurement: from then on they are judged like any
+	// other options value with those fields.
+	gen.Prop(t, "options-from-an-empty-policy-then-filled-in", gen.N(4000, 300000), func(t *rapid.T) {
+		s := gen.NewStream(rapid.Uint64().Draw(t, "content"), "c08e")
+		q := drawPolicyQuote(t, s)
+		binary.LittleEndian.PutUint64(q.Xfam[:], gen.XfamFixed1|(s.Uint64()&gen.XfamFixed0))
+		binary.LittleEndian.PutUint64(q.TdAttr[:], s.Uint64()&gen.TdAttrAllowed)
+		var pol *ccpb.Policy
+		shape := rapid.SampledFrom([]string{"nil", "empty", "empty-header-policy", "empty-body-policy", "both-empty"}).Draw(t, "emptyPolicy")
+		switch shape {
+		case "empty":
+			pol = &ccpb.Policy{}
+		case "empty-header-policy":
+			pol = &ccpb.Policy{HeaderPolicy: &ccpb.HeaderPolicy{}}
+		case "empty-body-policy":
+			pol = &ccpb.Policy{TdQuoteBodyPolicy: &ccpb.TDQuoteBodyPolicy{}}
+		case "both-empty":
+			pol = &ccpb.Policy{HeaderPolicy: &ccpb.HeaderPolicy{}, TdQuoteBodyPolicy: &ccpb.TDQuoteBodyPolicy{}}
+		}
+		var opts *validate.Options
+		if vc := gen.Call(func() error {
+			var err error
+			opts, err = validate.PolicyToOptions(pol)
+			return err
+		}); !vc.Accepted() || opts == nil {
+			gen.Fail(t, gen.Violation{Key: "rejects-wellformed-policy:" + shape, Oracle: "a policy without expectations converts", Detail: vc.String(), Replay: map[string]any{"kind": "c08-empty-policy"}})
+			return
+		}
+		// exactly one or two expectations filled in, met or missed
+		p := &gen.PolicyFields{}
+		for i, n := 0, rapid.IntRange(1, 2).Draw(t, "filledIn"); i < n; i++ {
+			switch rapid.IntRange(0, 6).Draw(t, "which") {
+			case 0:
+				p.ReportData = drawField(t, "rd", q.ReportData[:], s)
+			case 1:
+				p.MrTd = drawField(t, "mrtd", q.MrTd[:], s)
+			case 2:
+				p.MinTeeTcbSvn = drawMinTee(t, q.TeeTcbSvn[:], s)
+			case 3:
+				p.MinQeSvn = uint32(rapid.SampledFrom([]int{0, 1, int(binary.LittleEndian.Uint16(q.Word10[:])), int(binary.LittleEndian.Uint16(q.Word10[:])) + 1, 65535}).Draw(t, "minqe"))
+			case 4:
+				p.AnyMrTd = [][]byte{s.Bytes(48), drawField(t, "any", q.MrTd[:], s)}
+			case 5:
+				p.QeVendorID = drawField(t, "vendor", q.VendorID[:], s)
+			default:
+				p.Rtmrs = [][]byte{nil, drawField(t, "rtmr", q.Rtmr[1][:], s), nil, nil}
+			}
+		}
+		syncOptions(opts, p)
+		mv := gen.PolicyModel(q, p)
+		m := q.ToProto()
+		gen.Eval()
+		v := gen.Call(func() error { return validate.TdxQuote(m, opts) })
+		gen.Class("options-from-an-empty-policy:" + shape)
+		if key, oracle, detail := c08Judge(mv, v, p); key != "" {
+			gen.Fail(t, gen.Violation{Key: key + ":options-from-an-empty-policy", Oracle: oracle, Detail: fmt.Sprintf("options obtained from PolicyToOptions(%s policy) and then filled in with %v: %s", shape, fieldsJSON(p), detail), Replay: map[string]any{"kind": "c08-empty-policy"}})
+		}
+	})
+
 	// Histories: ONE options value and a few parsed quote objects live through many validations (as in a service
 	// whose policy is edited while it runs); between validations the caller edits option byte strings and list
 	// entries in place or replaces them. Every validation is judged by the stateless model on the current values.
@@ -448,9 +509,17 @@ func TestC08(t *testing.T) {
 		p.MrTd = nil
 		p.ReportData = append([]byte{}, quotes[0].ReportData[:]...)
 		p.AnyMrTd = [][]byte{s.Bytes(48), append([]byte{}, quotes[0].MrTd[:]...), s.Bytes(48)}[:1+rapid.IntRange(0, 2).Draw(t, "listLen")]
+		if rapid.Bool().Draw(t, "pinLastRegister") {
+			p.Rtmrs = [][]byte{nil, nil, nil, append([]byte{}, quotes[0].Rtmr[3][:]...)}
+		}
+		if rapid.Bool().Draw(t, "minimumTeeTcbSvn") {
+			p.MinTeeTcbSvn = make([]byte, 16)
+		}
 		opts := fieldsToOptions(p)
 		var hist []string
 		edits, validations := 0, 0
+		holds := []int{0, 1}       // which quote each message object currently holds
+		broken := []string{"", ""} // non-empty: the message object has lost part of its structure
 		fieldsOf := func() []*[]byte {
 			return []*[]byte{&p.MrSeam, &p.ReportData, &p.QeVendorID, &p.MrConfigID, &p.MrOwner, &p.MrOwnerConfig, &p.TdAttributes, &p.Xfam, &p.MinTeeTcbSvn}
 		}
@@ -463,14 +532,27 @@ func TestC08(t *testing.T) {
 				qi := rapid.IntRange(0, 1).Draw(t, "quote")
 				raw := rapid.IntRange(0, 3).Draw(t, "raw") == 0
 				syncOptions(opts, p)
-				mv := gen.PolicyModel(quotes[qi], p)
+				mv := gen.PolicyModel(quotes[holds[qi]], p)
 				gen.Eval()
 				var v gen.Verdict
 				if raw {
-					b := quotes[qi].Encode()
+					b := quotes[holds[qi]].Encode()
 					v = gen.Call(func() error { return validate.RawTdxQuote(b, opts) })
 				} else {
 					v = gen.Call(func() error { return validate.TdxQuote(msgs[qi], opts) })
+					if broken[qi] != "" {
+						// the message object has lost part of its structure since it was last validated: it is no quote
+						validations++
+						hist = append(hist, fmt.Sprintf("validate message object %d (%s) -> %s", qi, broken[qi], v.Short()))
+						if v.Panicked() || v.Accepted() {
+							key := "history:accepts-malformed-message:" + strings.SplitN(broken[qi], " ", 2)[0]
+							if v.Panicked() {
+								key = "history:panic@" + gen.PanicSite(v.Stack)
+							}
+							gen.Fail(t, gen.Violation{Key: key, Oracle: "validation judges the message it is given, as it is now (whatever was validated with this quote object before)", Detail: fmt.Sprintf("message object %d is now malformed (%s): %s; history: %s", qi, broken[qi], v, strings.Join(hist, " ; ")), Replay: map[string]any{"kind": "c08-history", "history": hist}})
+						}
+						return
+					}
 				}
 				validations++
 				hist = append(hist, fmt.Sprintf("validate quote %d raw=%v -> %s (model miss=%q malformed=%v)", qi, raw, v.Short(), mv.Miss, mv.Malformed))
@@ -517,6 +599,56 @@ func TestC08(t *testing.T) {
 				}
 				edits++
 				hist = append(hist, fmt.Sprintf("edit field %d", fi))
+			},
+			// a long-lived message object is re-used for the next request: emptied and filled from the wire bytes of
+			// (possibly another) quote
+			"message-object-refilled": func(t *rapid.T) {
+				qi, from := rapid.IntRange(0, 1).Draw(t, "object"), rapid.IntRange(0, 1).Draw(t, "fromQuote")
+				wire, err := proto.Marshal(quotes[from].ToProto())
+				if err != nil {
+					t.Skip("no wire form")
+				}
+				proto.Reset(msgs[qi])
+				if proto.Unmarshal(wire, msgs[qi]) != nil {
+					gen.HarnessError(t, "own wire bytes do not decode")
+				}
+				holds[qi], broken[qi] = from, ""
+				edits++
+				hist = append(hist, fmt.Sprintf("message object %d refilled with quote %d", qi, from))
+			},
+			// ... or it is edited so that it is no well-formed quote any more
+			"message-object-loses-structure": func(t *rapid.T) {
+				qi := rapid.IntRange(0, 1).Draw(t, "object")
+				m := msgs[qi]
+				if m.GetTdQuoteBody() == nil || m.GetHeader() == nil {
+					t.Skip("already without body or header")
+				}
+				how := rapid.SampledFrom([]string{"tee_tcb_svn-absent", "rtmrs-three", "qe_svn-absent", "mr_td-short", "xfam-absent", "body-absent", "report_data-long", "rtmrs-regrouped"}).Draw(t, "how")
+				switch how {
+				case "tee_tcb_svn-absent":
+					m.TdQuoteBody.TeeTcbSvn = nil
+				case "rtmrs-three":
+					if len(m.TdQuoteBody.Rtmrs) > 3 {
+						m.TdQuoteBody.Rtmrs = m.TdQuoteBody.Rtmrs[:3]
+					}
+				case "qe_svn-absent":
+					m.Header.QeSvn = nil
+				case "mr_td-short":
+					if len(m.TdQuoteBody.MrTd) > 0 {
+						m.TdQuoteBody.MrTd = m.TdQuoteBody.MrTd[:len(m.TdQuoteBody.MrTd)-1]
+					}
+				case "xfam-absent":
+					m.TdQuoteBody.Xfam = nil
+				case "body-absent":
+					m.TdQuoteBody = nil
+				case "report_data-long":
+					m.TdQuoteBody.ReportData = append(append([]byte{}, m.TdQuoteBody.ReportData...), 0)
+				default:
+					m.TdQuoteBody.Rtmrs = [][]byte{make([]byte, 64), make([]byte, 64), make([]byte, 64)}
+				}
+				broken[qi] = how + " (edited in place)"
+				edits++
+				hist = append(hist, fmt.Sprintf("message object %d: %s", qi, how))
 			},
 			"grow-or-shrink-allow-list": func(t *rapid.T) {
 				if len(p.AnyMrTd) > 0 && rapid.Bool().Draw(t, "shrink") {
